@@ -49,6 +49,15 @@ def make_generator(t, spec, model):
         return t.get_webentities_links_iter(out=spec["out"], include_auto=spec["auto"])
     if k == "network_slow":
         return t.get_webentities_links_slow_iter(out=spec["out"], include_auto=spec["auto"])
+    if k == "network_blocking":
+        # the blocking form of the network query, served in one piece while other requests are suspended
+        def one():
+            from traph.traph_iterator_state import TraphIteratorState
+
+            st = TraphIteratorState()
+            yield st.finalize(t.get_webentities_links(out=spec["out"], include_auto=spec["auto"]))
+
+        return one()
     if k == "we_pagelinks":
         c = spec["combo"]
         return t.get_webentity_pagelinks_iter(spec["weid"], spec["prefixes_b"], include_inbound=c[0], include_internal=c[1], include_outbound=c[2])
@@ -438,6 +447,15 @@ def run_C16(case):
                 if got != exp:
                     raise Fail("C16.symmetry", "get_page_links(%s) = %s expected %s" % (short(lru), short(got), short(exp)))
             # ---- (d) query answers vs snapshots ------------------------------
+            # a blocking network query served in the middle is asked again at quiescence, before any
+            # other request: its answer then has exactly one snapshot to agree with
+            for tk in list(tasks):
+                if tk.spec["kind"] == "network_blocking":
+                    again = Task(dict(tk.spec, id=tk.id + "-again"))
+                    again.result = t.get_webentities_links(out=tk.spec["out"], include_auto=tk.spec["auto"])
+                    again.first_step, again.last_step = len(snaps), len(snaps) - 1
+                    tasks.append(again)
+                    res.stats["blocking_network_queries_repeated_at_quiescence"] += 1
             for tk in tasks:
                 k = tk.spec["kind"]
                 life = snaps[tk.first_step - 1 : tk.last_step + 1]
@@ -586,7 +604,7 @@ def run_C16(case):
                     bad = [d["lru"] for d in tk.result if not fin["pages"].get(d["lru"])]
                     if bad:
                         raise Fail("C16.crawled_query_sound", "crawled-pages query lists pages that are not crawled pages at the end: %s" % short(bad))
-                elif k in ("network", "network_slow"):
+                elif k in ("network", "network_slow", "network_blocking"):
                     out, auto = tk.spec["out"], tk.spec["auto"]
                     key = "out" if out else "in"
                     g = {}
@@ -629,7 +647,7 @@ def run_C16(case):
                         if w > upper.get(pair, 0):
                             raise Fail("C16.network_upper", "network query (out=%s, auto=%s) reports %d for %r, at most %d could qualify at some moment; schedule %s" % (out, auto, w, pair, upper.get(pair, 0), short(sch.schedule, 300)))
                     # page tallies (fast variant only)
-                    for a, c in (tk.result.items() if k == "network" else ()):
+                    for a, c in (tk.result.items() if k in ("network", "network_blocking") else ()):
                         tot = sum(v for b, v in c.items() if isinstance(b, str))
                         cand = {l for sn in life for l in sn["pages"] if any(s2["pref"].get(resolve_in(s2["pref"], l)) == a for s2 in life)}
                         res.evals["C16.network_tallies"] += 1
@@ -706,11 +724,11 @@ def gen_C16_focused(rng, tier, seed):
         n[0] += 1
         return "t%d" % n[0]
 
-    qkind = rng.choice(["we_pages", "we_pagelinks", "we_pagelinks", "network", "network_slow", "we_outlinks", "we_inlinks", "we_children", "we_most_linked", "we_crawled_pages"])
+    qkind = rng.choice(["we_pages", "we_pagelinks", "we_pagelinks", "network", "network_slow", "network_blocking", "we_outlinks", "we_inlinks", "we_children", "we_most_linked", "we_crawled_pages"])
     q = {"id": tid(), "kind": qkind, "ref": O.enc(site)}
     if qkind == "we_pagelinks":
         q["combo"] = rng.choice([[False, True, False], [False, False, True], [True, True, True]])
-    if qkind in ("network", "network_slow"):
+    if qkind in ("network", "network_slow", "network_blocking"):
         q["out"], q["auto"] = rng.random() < 0.5, rng.random() < 0.5
     tasks.append(q)
     if rng.random() < 0.8:
@@ -763,7 +781,7 @@ def gen_C16(rng, tier, seed):
     if rng.random() < 0.85:
         kinds.append("batch")
     while len(kinds) < ntasks:
-        kinds.append(wchoice(rng, {"batch": 3, "rule": 1.5, "we_pages": 2, "network": 2, "add_page": 0.7, "add_links": 0.7, "edit": 0.8, "network_slow": 0.8, "we_pagelinks": 1.2, "we_children": 0.7, "we_crawled_pages": 0.4, "we_most_linked": 0.6, "we_outlinks": 0.7, "we_inlinks": 0.7}))
+        kinds.append(wchoice(rng, {"batch": 3, "rule": 1.5, "we_pages": 2, "network": 2, "network_blocking": 1.2, "add_page": 0.7, "add_links": 0.7, "edit": 0.8, "network_slow": 0.8, "we_pagelinks": 1.2, "we_children": 0.7, "we_crawled_pages": 0.4, "we_most_linked": 0.6, "we_outlinks": 0.7, "we_inlinks": 0.7}))
     rng.shuffle(kinds)
     for k in kinds:
         if k == "batch":
@@ -793,7 +811,7 @@ def gen_C16(rng, tier, seed):
             if k == "we_pagelinks":
                 spec["combo"] = rng.choice([[True, True, True], [False, True, False], [False, True, False], [False, False, True], [False, False, True], [True, False, False], [False, True, True]])
             tasks.append(spec)
-        elif k in ("network", "network_slow"):
+        elif k in ("network", "network_slow", "network_blocking"):
             tasks.append({"id": tid(), "kind": k, "out": rng.random() < 0.5, "auto": rng.random() < 0.5})
         elif k == "edit":
             px = rng.choice(g.created_prefixes) if g.created_prefixes and rng.random() < 0.6 else g.prefix()
